@@ -47,8 +47,86 @@ def lifo_overlap_finding():
     return res
 
 
+def rule_foreign_dicts():
+    """C10.S.foreign_dicts: process-global dictionaries that OTHER threads mutate without einx's lock (sys.modules on every import, os.environ) may only be iterated through an
+    atomic snapshot (list(d), tuple(d), d.copy(), sorted(d)): iterating the live dict raises `RuntimeError: dictionary changed size during iteration` when another thread imports a module"""
+    import ast
+    FOREIGN = ("sys.modules", "os.environ")
+    sites, failing = [], []
+    for f in frame.all_files():
+        t = ast.parse(open(f).read())
+        r = frame.rel(f)
+        par = frame.parents(t)
+        for n in ast.walk(t):
+            its = []
+            if isinstance(n, (ast.For, ast.AsyncFor)):
+                its.append(n.iter)
+            if isinstance(n, ast.comprehension):
+                its.append(n.iter)
+            for it in its:
+                base = it.func.value if isinstance(it, ast.Call) and isinstance(it.func, ast.Attribute) and it.func.attr in ("items", "keys", "values") and not it.args else it
+                txt = ast.unparse(base)
+                if txt in FOREIGN:
+                    site = f"{r}:{it.lineno}:iteration over {ast.unparse(it)}"
+                    sites.append(site)
+                    failing.append(site + " (live iteration over a dict that other threads mutate; take a snapshot first)")
+        for n in ast.walk(t):
+            if isinstance(n, ast.Call) and isinstance(n.func, ast.Name) and n.func.id in ("list", "tuple", "sorted", "set", "frozenset", "dict") and n.args and ast.unparse(n.args[0]).split(".items")[0].split(".keys")[0].split(".values")[0] in FOREIGN:
+                sites.append(f"{r}:{n.lineno}:snapshot {ast.unparse(n)[:50]}")
+    return not failing, sites, failing
+
+
+def import_race(seconds):
+    """bounded: lookups that check for newly imported frameworks while another thread keeps inserting / removing entries of sys.modules"""
+    import sys, threading, time, types
+    import einx._src.frontend.backend as B
+    errs, stop = [], []
+
+    def importer():
+        i = 0
+        while not stop:
+            i += 1
+            sys.modules[f"_vf_fake_mod_{i}"] = types.ModuleType(f"_vf_fake_mod_{i}")
+            if i % 50 == 0:
+                for j in range(i - 50, i + 1):
+                    sys.modules.pop(f"_vf_fake_mod_{j}", None)
+
+    class T:
+        pass
+
+    calls = [0]
+
+    def caller():
+        while not stop:
+            calls[0] += 1
+            try:
+                B.registry.get_by_tensors([T()])
+            except RuntimeError as e:
+                errs.append(repr(e))
+                return
+            except Exception:  # noqa
+                pass
+
+    ts = [threading.Thread(target=importer), threading.Thread(target=caller), threading.Thread(target=caller)]
+    for t in ts:
+        t.start()
+    time.sleep(seconds)
+    stop.append(1)
+    for t in ts:
+        t.join(10)
+    for k in [k for k in sys.modules if k.startswith("_vf_fake_mod_")]:
+        sys.modules.pop(k, None)
+    return calls[0], errs
+
+
 def run(tier, seed):
     chk = Check("C10", tier, seed, "other")
+    ok, sites, failing = rule_foreign_dicts()
+    chk.add_rule("C10.S.foreign_dicts", ok, sites, failing)
+    n_calls, errs = import_race(3 if tier == "quick" else 60)
+    if errs:
+        chk.violation("C10.B.import_race", f"a backend lookup failed because another thread changed sys.modules while einx iterated it: {errs[0]}", replay={"kind": "case", "case": {"fn": "vf.props.C10:import_race", "seconds": 10}}, found_input=True)
+    chk.add_bounded("backend lookups for an unknown tensor type (each checks for newly imported frameworks) in two threads while a third thread inserts / removes sys.modules entries", f"{3 if tier == 'quick' else 60} s free-running", n_calls, n_calls, failures=errs[:2], note="schedule not controlled: a stress run, complements rule C10.S.foreign_dicts")
     ok, sites, failing = frame.rule_lock()
     chk.add_rule("C10.S.lock", ok, sites, failing)
     ok, sites, failing = frame.rule_snapshot()
